@@ -93,7 +93,7 @@ def main():
         for i in range(n // 8):
             base = g.parts(scheme=True); r = g.parts()
             if g.r.random() < 0.6:
-                r['path'] = g.pick(['', 'x', '../x', './', '..', '/x/..', 'a/../..', '../../../x', '/./', 'x/.']); r['authority'] = None
+                r['path'] = g.pick(['', 'x', '../x', './', '..', '/x/..', 'a/../..', '../../../x', '/./', 'x/.', '/a/..//%41/.', '/a/..//%41/..', 'a/..//%C3%A9/.', '/x/..//b:c/.', '/a/..//%41%42/x/..'] + (['/a/..//é/.', '/a/..//日本/..'] if fam == 'iri' else [])); r['authority'] = None
                 if r['scheme'] is None and ':' in r['path'].split('/')[0]: r['path'] = './' + r['path']
             lines.append('resolve\t%s\t%s\t%s' % (fam, hexs(Gen.compose(base)), hexs(Gen.compose(r))))
             meta.append((fam + ' resolve', Gen.compose(base), [Gen.compose(r)]))
